@@ -19,7 +19,7 @@ from vf.accounting import canon
 
 
 class CaseResult(object):
-  __slots__ = ('nontrivial', 'classes', 'violations')
+  __slots__ = ('nontrivial', 'classes', 'violations', 'sched')
 
   def __init__(self, nontrivial=False, classes=(), violations=()):
     self.nontrivial = nontrivial
